@@ -556,7 +556,10 @@ impl Ctx {
         let failed_here = std::cell::Cell::new(false);
         let res = runner.run(&strategy, |case| {
             if failed_here.get() {
-                // shrinking: re-run silently
+                // shrinking: re-run silently; pointless once another shard has reported
+                if self.failed() {
+                    return Ok(());
+                }
                 let o = self.settle(guarded(oracle, &case));
                 return match o.verdict {
                     Verdict::Violation(m) => Err(TestCaseError::fail(m)),
